@@ -50,6 +50,7 @@ def _replay_group(group):
     for letter in prefix:
       impl.step(rm2, letter)
       impl.resolve(rm2)
+      rm2.need_calibration()      # another read: need_calibration is a function of the store (Recipe!NeedCal)
     letter = t["hist"][-1]
     got_last = impl.step(rm2, letter)
     exp = impl.export(rm2)
